@@ -11,6 +11,10 @@ and evaluated under an assignment {id: value} with the ordinary meaning of the o
 import itertools
 
 
+class MalformedAtom(ValueError):
+    """a native graph atom whose operand layout is not  n m <n items> <2m endpoints> [<m flags>]"""
+
+
 def from_cspuz(e):
     from cspuz.expr import BoolVar, Expr, IntVar
 
@@ -139,8 +143,10 @@ def ev(node, asg):
         act = [bool(ev(x, asg)) for x in node[3:3 + n]]
         flat = [ev(x, asg) for x in node[3 + n:]]
         if len(flat) != 2 * m or len(act) != n:
-            raise ValueError("malformed graph atom")
+            raise MalformedAtom("malformed graph atom")
         edges = [(flat[2 * k], flat[2 * k + 1]) for k in range(m)]
+        if any(not (isinstance(x, int) and 0 <= x < n) for x in flat):
+            raise MalformedAtom("edge endpoint out of range")
         return active_vertices_connected(n, edges, act)
     if t == "GRAPH_DIVISION":
         n, m = node[1][1], node[2][1]
@@ -148,8 +154,10 @@ def ev(node, asg):
         flat = [ev(x, asg) for x in node[3 + n:3 + n + 2 * m]]
         borders = [bool(ev(x, asg)) for x in node[3 + n + 2 * m:]]
         if len(flat) != 2 * m or len(borders) != m:
-            raise ValueError("malformed graph atom")
+            raise MalformedAtom("malformed graph atom")
         edges = [(flat[2 * k], flat[2 * k + 1]) for k in range(m)]
+        if any(not (isinstance(x, int) and 0 <= x < n) for x in flat):
+            raise MalformedAtom("edge endpoint out of range")
         return graph_division(n, edges, sizes, borders)
     raise ValueError("unknown node %r" % (t,))
 
